@@ -89,6 +89,8 @@ pub struct Ctx {
     pub rdv: Mutex<Option<Arc<Rendezvous>>>,
     /// number of inner dispatches each batch performed (sum)
     pub inner_dispatches: Vec<AtomicU32>,
+    /// builder id -> `format!("{:?}", builder)` taken right before the builder is consumed
+    pub debug_texts: Mutex<std::collections::BTreeMap<usize, Result<String, String>>>,
 }
 
 thread_local! {
@@ -133,6 +135,7 @@ impl Ctx {
             cond: Conductor::new(),
             rdv: Mutex::new(None),
             inner_dispatches: av(n, || AtomicU32::new(0)),
+            debug_texts: Mutex::new(Default::default()),
         })
     }
 
